@@ -970,6 +970,22 @@ func ruleC07_6(c *Ctx, r *Rep) {
 					if !known {
 						continue
 					}
+					// the test must be the one a SUCCESSFUL evaluation passes through: a result test that is only
+					// reached when the term's evaluation failed (`err != nil && !result`) decides nothing on the normal path
+					onErrPath := false
+					for _, cd := range edgeConds(b) {
+						ec := normCond(cd.V, cd.Pol)
+						if bo, isB := ec.V.(*ssa.BinOp); isB && isNilConst(bo.Y) {
+							if ex, isE := resolve(bo.X).(*ssa.Extract); isE && ex.Index == 1 {
+								if call, isC := ex.Tuple.(*ssa.Call); isC && isTermEval(call) && (bo.Op == token.NEQ) == ec.Pol {
+									onErrPath = true
+								}
+							}
+						}
+					}
+					if onErrPath {
+						continue
+					}
 					for i, sc := range b.Succs {
 						if !l.Blocks[sc] {
 							taken := onTrue
